@@ -173,6 +173,11 @@ class DocumentSkeleton(NativeCase):
                docs.item("tag", "9"), docs.item("JUMPDEST"), docs.item("PUSHLIB", "contracts/Other.sol:Other"), docs.item("PUSHLIB", "contracts/Lib.sol:Lib"),
                docs.item("SWAP1"), docs.item("POP"), docs.item("STOP")]
         ds.append(('splits+pseudo-pushes', {"contracts": {"x.sol:X": {"asm": {".code": seg, ".data": {}}}}, "version": "0.8.17"}))
+        # constant operations whose mathematical result leaves the 256-bit range (seed C09-4: a fold without the wrap emits PUSH of 257 bits)
+        F = "f" * 64
+        wrap = ["PUSH 8000000000000000000000000000000000000000000000000000000000000001 PUSH 1 SHL", "PUSH %s PUSH 2 MUL" % F, "PUSH %s PUSH %s ADD" % (F, F),
+                "PUSH 100 PUSH 2 EXP", "PUSH %s PUSH ff SHL" % F, "PUSH 1 PUSH 0 SUB", "PUSH %s PUSH %s MUL PUSH 1 ADD" % (F, F), "PUSH 2 PUSH %s PUSH %s ADDMOD" % (F, F)]
+        ds.append(('wrapping-constants', docs.document([corpus.tokens(wrap[0])], [corpus.tokens(b + " SWAP1 POP") for b in wrap])))
         optsets = [(), ('-size',), ('-storage',)] if tier == 'quick' else [(), ('-size',), ('-length',), ('-storage',), ('-partition',), ('-no-simplification',), ('-push0',)]
         n = 0
         for nm, d in ds:
